@@ -20,6 +20,68 @@ func runC16Gaps2(c *eng.Ctx) {
 	c16gIssuerRevokeOnce(c)
 	c16gMemberEntriesPulled(c)
 	c16gWorkFlags(c)
+	c16gSkipOnlyRevokedIssuers(c)
+}
+
+// ---- C16.6: the two sources of CRL entries — revoked/ records (getLocalRevokedCertEntries) and
+// revoked issuers (augmentWithRevokedIssuers) — together cover every serial that has a revoked/
+// record. The collector may pass over a record as "one of the issuers' own certificates" only when
+// the other source provably lists it, and that source lists an issuer only if issuerEntry.Revoked
+// is set. So an issuer certificate becomes a skip candidate (or the skip is taken) only behind a
+// true test of issuerEntry.Revoked. Otherwise a certificate revoked through /revoke and later
+// imported as an issuer (Revoked never set by the import) is on no CRL while cert/<serial> and OCSP
+// still call it revoked.
+func c16gSkipOnlyRevokedIssuers(c *eng.Ctx) {
+	f := c.Fn("pki.getLocalRevokedCertEntries")
+	if f == nil {
+		return
+	}
+	fv := c.P.Field("pki.issuerEntry.Revoked")
+	if fv == nil {
+		c.Unresolved("pki.issuerEntry.Revoked")
+		return
+	}
+	c.Clause("R2", "C16.6")
+	var revoked []eng.Edge
+	for _, b := range f.Blocks {
+		ifi := eng.IfOf(b)
+		if ifi == nil {
+			continue
+		}
+		if ld, ok := eng.Normalize(ifi.Cond).Val.(*ssa.UnOp); ok && ld.Op == token.MUL {
+			if fa, ok := ld.X.(*ssa.FieldAddr); ok && eng.FieldVar(fa) == fv {
+				revoked = append(revoked, eng.BoolEdges(ld, true)...)
+			}
+		}
+	}
+	g := eng.Guard{Desc: "issuerEntry.Revoked is true", Edges: revoked}
+	skip, _ := c16IssuerSkip(f)
+	if !c.Floor(f, "issuer-certificate skip edge", len(skip), 1) {
+		return
+	}
+	// (ii) the skip itself is taken only for a revoked issuer
+	if len(revoked) > 0 {
+		var ifs []ssa.Instruction
+		for _, e := range skip {
+			ifs = append(ifs, e.From.Instrs[len(e.From.Instrs)-1])
+		}
+		if eng.Reach(eng.Query{Fn: f, Blocked: revoked, Target: eng.IsTarget(ifs)}) == nil {
+			c.OK(f, "sink{issuer certificate admitted to the issuer-skip candidates} guard{issuerEntry.Revoked is true}", ifs[0].Pos(), "the issuer-certificate skip is decided only behind issuerEntry.Revoked == true")
+			return
+		}
+	}
+	// (i) the candidate set consulted by the skip holds revoked issuers only
+	var ups []ssa.Instruction
+	for _, mu := range c16gMapUpdates(f) {
+		mk, ok := mu.Map.(*ssa.MakeMap)
+		if ok && strings.HasSuffix(mk.Type().String(), "[]*crypto/x509.Certificate") {
+			ups = append(ups, mu)
+		}
+	}
+	if !c.Floor(f, "issuer certificates collected as skip candidates", len(ups), 1) {
+		return
+	}
+	c.Cut(f, "issuer certificate admitted to the issuer-skip candidates", ups, g, nil)
 }
 
 // ---- C16.2: the "needs work" flags of the CRL builder. A flag that records pending work
